@@ -13,6 +13,8 @@
 //   bt <i>                         a real thread blocks in F_i.sync() (joined inside the operation that resolves F_i)
 //   bw <i>                         blocking wait on the (resolved) F_i: through the subscribed sync_awaiter, else future::wait()
 //   del <i>                        destroy F_i (resolved, not referenced any more)
+//   bd <i> <4|32|48|64|200>        B_i = P_i.bind(value of that many bytes): the promise moves into the callable (kept in storage
+//                                  the harness owns); bi <i> invokes B_i (resolves with the bound value), bx <i> destroys B_i
 //   co <j> <H|N> <i|-> <script>    create coroutine C_j (async<T>) with a heap / non-heap (bump storage) frame; bound to P_i
 //                                  (`start(P_i)`) or detached; script = comma separated actions (or `-`):
 //                                  a<i> co_await F_i | r<i><v|e|d> resolve P_i, drop the suspend point | R<i><v|e|d> resolve and
@@ -213,9 +215,28 @@ struct bump_storage {
 alignas(16) char bump_storage::arena[bump_storage::arena_size];
 std::size_t bump_storage::used = 0;
 
+// values of a given size to bind to a promise; both value types are constructed from them
+template <int N>
+struct blob {
+    int tag;
+    char pad[N > 4 ? N - 4 : 1];
+    explicit blob(int t) : tag(t) { std::memset(pad, 0, sizeof pad); }
+    operator int() const { return tag; }
+};
+template <>
+struct blob<4> {
+    int tag;
+    explicit blob(int t) : tag(t) {}
+    operator int() const { return tag; }
+};
+static_assert(sizeof(blob<4>) == 4 && sizeof(blob<32>) == 32 && sizeof(blob<48>) == 48 && sizeof(blob<64>) == 64 &&
+              sizeof(blob<200>) == 200);
+
 struct big {
     long a[8];
     big(long x = 0) { for (auto &v : a) v = x; }
+    template <int N>
+    big(const blob<N> &b) : big((long)b.tag) {}
 };
 static long first(int v) { return v; }
 static long first(const big &b) { return b.a[0]; }
@@ -290,6 +311,9 @@ struct Runner {
         std::vector<awaiter *> cbs;
         std::vector<sync_awaiter *> syncs;
         std::size_t sync_waited = 0;
+        // the callable returned by promise::bind, constructed in place
+        alignas(16) unsigned char bstore[288];
+        int bsize = 0;     // 0: none, else the size of the bound value
         // a real thread blocked in future::sync()
         std::vector<std::unique_ptr<std::thread>> blocked;
         ~Fut() {
@@ -566,6 +590,62 @@ struct Runner {
         return outcome(*f.f);
     }
 
+    // ---- promise::bind ------------------------------------------------------------------------------
+    template <int N>
+    using bound_t = decltype(std::declval<promise<VT> &>().bind(std::declval<blob<N>>()));
+    template <int N>
+    static void bind_n(Fut &f, int tag) {
+        static_assert(sizeof(bound_t<N>) <= sizeof f.bstore && alignof(bound_t<N>) <= 16);
+        new (f.bstore) bound_t<N>(f.p.bind(blob<N>(tag)));
+    }
+    template <int N>
+    static suspend_point<bool> call_n(Fut &f) { return (*reinterpret_cast<bound_t<N> *>(f.bstore))(); }
+    template <int N>
+    static void kill_n(Fut &f) { reinterpret_cast<bound_t<N> *>(f.bstore)->~bound_t<N>(); }
+#define BOUND_DISPATCH(fn, f, ...)                                                       \
+    switch ((f).bsize) {                                                                 \
+        case 4: return fn<4>(f, ##__VA_ARGS__);                                          \
+        case 32: return fn<32>(f, ##__VA_ARGS__);                                        \
+        case 48: return fn<48>(f, ##__VA_ARGS__);                                        \
+        case 64: return fn<64>(f, ##__VA_ARGS__);                                        \
+        default: return fn<200>(f, ##__VA_ARGS__);                                       \
+    }
+    static void bind_any(Fut &f, int tag) { BOUND_DISPATCH(bind_n, f, tag) }
+    static suspend_point<bool> call_any(Fut &f) { BOUND_DISPATCH(call_n, f) }
+    static void kill_any(Fut &f) { BOUND_DISPATCH(kill_n, f) }
+
+    std::string op_bd(int i, int size) {
+        Fut &f = futs[i];
+        if (!f.existed || f.bsize) return "skip";
+        measured m;
+        f.bsize = size;
+        bind_any(f, 100 + i);
+        return "ok";
+    }
+    std::string op_bi(int i) {
+        Fut &f = futs[i];
+        if (!f.bsize) return "skip";
+        measured m;
+        suspend_point<bool> sp = call_any(f);
+        bool won = sp;
+        std::size_t n = sp.size();
+        {
+            al::hguard g;
+            return std::string(won ? "1" : "0") + " n=" + std::to_string(n);
+        }
+    }
+    void kill_bound(Fut &f) {
+        kill_any(f);
+        f.bsize = 0;
+    }
+    std::string op_bx(int i) {
+        Fut &f = futs[i];
+        if (!f.bsize) return "skip";
+        measured m;
+        kill_bound(f);
+        return "ok";
+    }
+
     std::string op_del(int i) {
         Fut &f = futs[i];
         if (!f.f || f.f->pending() || !f.blocked.empty()) return "skip";
@@ -720,6 +800,8 @@ struct Runner {
                 if (main_own[k]) { main_own[k].release(); progress = true; }
             for (int i = 0; i < MAXID; i++)
                 if (futs[i].existed && futs[i].p) { futs[i].p(drop); progress = true; }
+            for (int i = 0; i < MAXID; i++)
+                if (futs[i].bsize) { kill_bound(futs[i]); progress = true; }
             for (int j = 0; j < MAXID; j++)
                 if (cos[j].st == PARKED) { cos[j].st = ACTIVE; coro_queue::resume(cos[j].parked); progress = true; }
             for (int s = 0; s < NSP; s++)
@@ -752,6 +834,10 @@ struct Runner {
             else if (k == "bt" && w.size() == 2 && to_nat(w[1], a) && a < MAXID) head = op_bt(a);
             else if (k == "bw" && w.size() == 2 && to_nat(w[1], a) && a < MAXID) head = op_bw(a);
             else if (k == "del" && w.size() == 2 && to_nat(w[1], a) && a < MAXID) head = op_del(a);
+            else if (k == "bd" && w.size() == 3 && to_nat(w[1], a) && a < MAXID && to_nat(w[2], b) &&
+                     (b == 4 || b == 32 || b == 48 || b == 64 || b == 200)) head = op_bd(a, b);
+            else if (k == "bi" && w.size() == 2 && to_nat(w[1], a) && a < MAXID) head = op_bi(a);
+            else if (k == "bx" && w.size() == 2 && to_nat(w[1], a) && a < MAXID) head = op_bx(a);
             else if (k == "co" && w.size() == 5 && to_nat(w[1], a) && a < MAXID && (w[2] == "H" || w[2] == "N")) {
                 int bind = -1;
                 bool ok = w[3] == "-" || (to_nat(w[3], bind) && bind < MAXID);
